@@ -419,3 +419,42 @@ func (it *Interp) storeIterator(v *StoreView, prefix *StrV, reverse bool) Val {
 }
 
 var _ = fmt.Sprint
+
+const anyT = "github.com/cosmos/cosmos-sdk/codec/types"
+
+func (it *Interp) newAny(v IfaceV) Val {
+	var at types.Type
+	for _, p := range it.prog.AllPackages() {
+		if p.Pkg.Path() == anyT {
+			at = p.Pkg.Scope().Lookup("Any").Type()
+		}
+	}
+	if at == nil {
+		it.fail("codec/types.Any not loaded")
+	}
+	s := it.zero(at).(*StructV)
+	st := at.Underlying().(*types.Struct)
+	for i := 0; i < st.NumFields(); i++ {
+		switch st.Field(i).Name() {
+		case "TypeUrl":
+			s.F[i] = strLit("/" + strings.TrimPrefix(v.T.String(), "*"))
+		case "Value":
+			s.F[i] = &StrV{Boxed: copyDeep(v), BoxT: nil}
+		case "cachedValue":
+			s.F[i] = v
+		}
+	}
+	return Ptr(newVal(s))
+}
+
+func init() {
+	models[anyT+".NewAnyWithValue"] = func(it *Interp, a []Val) Val {
+		v := a[0].(IfaceV)
+		if v.IsNil() {
+			return Tuple{Ptr(nil), it.newErr(IfaceV{}, "Expecting non nil value to create a new Any")}
+		}
+		return Tuple{it.newAny(v), IfaceV{}}
+	}
+	execThroughPrefixes = append(execThroughPrefixes, "(*"+anyT+".Any).Get")
+	execThrough["github.com/cosmos/cosmos-sdk/x/gov/types.ValidateAbstract"] = true
+}
